@@ -65,6 +65,50 @@ class Update:
                                       sorted(self.guards))
 
 
+def _tail(e):
+    """value expression of a block (through nested value blocks)"""
+    e = peel(e)
+    while e.get('k') == 'Block' and 'expr' in e:
+        if e.get('stmts'):
+            return e
+        e = peel(e['expr'])
+    return e
+
+
+def _diverges(e):
+    """the branch ends in `return` (it yields no value and control does not continue)"""
+    e = peel(e)
+    if e.get('k') == 'Ret':
+        return True
+    if e.get('k') == 'Block':
+        if 'expr' in e:
+            return _diverges(e['expr'])
+        st = e.get('stmts', [])
+        return bool(st) and st[-1]['k'] in ('Semi', 'Expr') and _diverges(st[-1]['e'])
+    return False
+
+
+def _not_none_pred(x):
+    """`IsNone::not_none` as a path or as `|v| v.not_none()`"""
+    x = peel(x)
+    if x.get('k') == 'Path' and strip_generics(x.get('def', '')).endswith('::not_none'):
+        return True
+    if x.get('k') == 'Closure' and len(x.get('params', [])) == 1 and x['params'][0].get('k') == 'Binding':
+        b = _tail(x['ch'][0])
+        return b.get('k') == 'MethodCall' and callee_is(b, 'IsNone::not_none') and len(b['ch']) == 1 and \
+            peel(b['ch'][0]).get('local') == x['params'][0]['local']
+    return False
+
+
+def _filtered(e):
+    """`o.filter(not_none)` -> o (else None)"""
+    e = peel(e)
+    if e.get('k') == 'MethodCall' and e.get('method') == 'filter' and callee_is(e, 'Option::filter') and \
+            len(e['ch']) == 2 and _not_none_pred(e['ch'][1]):
+        return peel(e['ch'][0])
+    return None
+
+
 class KernelModel:
     """Structural model of one driver closure."""
 
@@ -92,6 +136,7 @@ class KernelModel:
             if t in ('NEW0', 'NEW1', 'OLD0', 'OLD1', 'END', 'OLDIDX'):
                 self.env.name(lid, t)
         self.updates = []
+        self.exits = []          # (node, guards, seq) of every early exit of the closure
         self._collect(self.body, frozenset(), self.env)
 
     # -- tagging ---------------------------------------------------------
@@ -184,7 +229,14 @@ class KernelModel:
             init = peel(init['expr'])
         ch = False
         k = pat.get('k')
+        if init.get('k') == 'If' and len(init['ch']) == 3 and (_diverges(init['ch'][1]) != _diverges(init['ch'][2])):
+            # `let v = if let Some(x) = old { x.f64() } else { return r };`: the value is the
+            # surviving branch's
+            keep = init['ch'][2] if _diverges(init['ch'][1]) else init['ch'][1]
+            return self._flow(pat, _tail(keep))
         if k == 'TupleStruct' and strip_generics(pat.get('def', '')).endswith('Some'):
+            if _filtered(init) is not None:
+                init = _filtered(init)
             t = self.tag_of(init) if init.get('k') != 'Path' else self.tags.get(init.get('local'))
             inner = pat['ch'][0]
             if t == 'OLDOPT':
@@ -252,6 +304,10 @@ class KernelModel:
             pat = cond['pat']
             init = peel(cond['ch'][0])
             if pat.get('k') == 'TupleStruct' and strip_generics(pat.get('def', '')).endswith('Some'):
+                fb = _filtered(init)
+                if fb is not None and fb.get('k') == 'Path' and self.tags.get(fb.get('local')) == 'OLDOPT' and positive:
+                    # `if let Some(v) = old.filter(IsNone::not_none)`: an element leaves and it is valid
+                    return {'SOME(OLD)', 'VALID(OLD1)' if False else 'VALID(OLD0)'}
                 it = self.tags.get(init.get('local')) if init.get('k') == 'Path' else None
                 if it in ('OLDOPT', 'OLDIDXOPT'):
                     p = ('SOME(OLD)', True)
@@ -292,6 +348,21 @@ class KernelModel:
                     return self._is_window_minus_one(s['init'])
         return False
 
+    def _survivor_guards(self, x):
+        """what holds after `if c { return .. }` / `let v = if c { .. } else { return .. };`: the
+        condition of the branch that does not leave"""
+        x = peel(x)
+        if x.get('k') != 'If':
+            return frozenset()
+        c = x['ch']
+        d1 = _diverges(c[1])
+        d2 = len(c) > 2 and _diverges(c[2])
+        if d1 and not d2:
+            return frozenset(self.preds(c[0], False))
+        if d2 and not d1:
+            return frozenset(self.preds(c[0]))
+        return frozenset()
+
     # -- updates ---------------------------------------------------------
     def _collect(self, e, guards, env):
         """Walk the closure body in program order, tracking guards and let-bindings,
@@ -306,8 +377,10 @@ class KernelModel:
                         self._collect(s['init'], guards, env)
                         bind_pat(s['pat'], s['init'], env)
                         self._name_tags(env)
+                        guards = guards | self._survivor_guards(s['init'])
                 elif s['k'] in ('Semi', 'Expr'):
                     self._collect(s['e'], guards, env)
+                    guards = guards | self._survivor_guards(s['e'])
                     x = s['e']
                     # keep closure-local mutable bindings current
                     if x.get('k') in ('AssignOp', 'Assign') and x['ch'][0].get('res') == 'local' \
@@ -347,6 +420,9 @@ class KernelModel:
         if k == 'Closure':
             self._collect(e['ch'][0], guards | frozenset({'CLOSURE'}), env)
             return
+        if k == 'Ret' or (k == 'Match' and 'TryDesugar' in e.get('src', '')):
+            if 'CLOSURE' not in guards:
+                self.exits.append((e, guards, e.get('_seq', 0)))
         for c in children(e):
             self._collect(c, guards, env)
 
